@@ -61,11 +61,28 @@ async def agen(data, chunking):
 
 
 class AsyncSink:
+    """A sink that is falsy while empty (defines __len__): readers must test `destination is not None`."""
+
     def __init__(self):
         self.buf = io.BytesIO()
+        self.n = 0
+
+    def __len__(self):
+        return self.n
 
     async def write(self, data):
+        self.n += len(data)
         self.buf.write(data)
+
+
+class SyncSink(list):
+    """A list-backed writable sink: falsy while nothing has been written."""
+
+    def write(self, data):
+        self.append(bytes(data))
+
+    def getvalue(self):
+        return b''.join(self)
 
 
 def run_coro(coro):
@@ -156,7 +173,7 @@ def apply_sync(rd, op, cs):
         return _wrap(lambda: rd.read_until(op[1], op[2], op[3]))
     if k == 'pipe':
         def f():
-            b = io.BytesIO()
+            b = SyncSink()
             rd.pipe(b)
             return b.getvalue()
         return _wrap(f)
@@ -164,7 +181,7 @@ def apply_sync(rd, op, cs):
         return _wrap(lambda: rd.exhaust())
     if k == 'pipe_until':
         def f():
-            b = io.BytesIO()
+            b = SyncSink()
             rd.pipe_until(op[1], b, op[2])
             return b.getvalue()
         return _wrap(f)
